@@ -62,11 +62,21 @@ Theorem C17_lexical_error_offset :
       ((exists k, o = zlen pre + k - 1 /\ 1 <= k <= zlen r /\ snd (fst (stepS r)) = k) \/ o = zlen e).
 Proof. exact lex_error_offset. Qed.
 
-(* ... and for the parser's errors: the offset is the position of one of the tokens the
-   lexer produced (the end-of-input token stands at the end of the text) *)
+(* every token the lexer returns is recorded at the offset where its text begins in the
+   expression (raw strings and literals: just after the opening apostrophe or backtick;
+   the end-of-input token at the end) *)
+Theorem C17_tokens_stand_where_their_text_begins :
+  forall e ts, tokenize e = Ok ts ->
+    exists out, ts = out ++ [Token tEOF [] (zlen e) 0] /\ Forall (placed e) out.
+Proof. exact tokens_placed. Qed.
+
+(* ... hence for the parser's errors: the offset of a syntax error is either a lexical one
+   (above), or the end of the text, or the offset at which a token's text begins in the
+   expression (tok_pos: just after the opening quote for raw strings and literals) *)
 Theorem C17_syntax_error_is_lexical_or_points_at_a_token :
   forall (e : bytes) o, Api.compile e = Err (ESyntax o) ->
-    tokenize e = Err (ESyntax o) \/ exists ts t, tokenize e = Ok ts /\ In t ts /\ o = tpos t.
+    tokenize e = Err (ESyntax o) \/ o = zlen e \/
+    exists pre text rest ty v, e = pre ++ text ++ rest /\ tok_text ty v text /\ o = tok_pos ty (zlen pre).
 Proof. exact compile_error_located. Qed.
 
 End C17.
@@ -79,6 +89,7 @@ Print Assumptions C17_must_compile.
 Print Assumptions C17_lexical_error_is_reported_where_reading_stops.
 Print Assumptions C17_lexical_error_offset.
 Print Assumptions C17_syntax_error_is_lexical_or_points_at_a_token.
+Print Assumptions C17_tokens_stand_where_their_text_begins.
 
 (* "a[" : the error is at the end of the expression; "a\x80": at the unknown character *)
 Example C17_example :
